@@ -349,11 +349,20 @@ func (r *renderer) body(ind int, body []*Node) {
 func (r *renderer) node(ind int, n *Node) {
 	switch n.Kind {
 	case KUses:
-		if n.When == "" {
+		if n.When == "" && n.Ext == "" {
 			r.line(ind, "uses %s;", r.refName(*n.Uses))
-		} else {
-			r.line(ind, "uses %s { when %s; }", r.refName(*n.Uses), q(n.When))
+			return
 		}
+		r.line(ind, "uses %s {", r.refName(*n.Uses))
+		if n.When != "" {
+			r.line(ind+1, "when %s;", q(n.When))
+		}
+		for _, x := range strings.Split(n.Ext, ",") {
+			if x != "" {
+				r.line(ind+1, "%s:note %s;", r.m.Prefix, q(x))
+			}
+		}
+		r.line(ind, "}")
 		return
 	case KInput, KOutput:
 		r.line(ind, "%s {", n.Kind)
@@ -363,8 +372,10 @@ func (r *renderer) node(ind int, n *Node) {
 	if n.When != "" {
 		r.line(ind+1, "when %s;", q(n.When))
 	}
-	if n.Ext != "" {
-		r.line(ind+1, "%s:note %s;", r.m.Prefix, q(n.Ext))
+	for _, x := range strings.Split(n.Ext, ",") {
+		if x != "" {
+			r.line(ind+1, "%s:note %s;", r.m.Prefix, q(x))
+		}
 	}
 	if n.Desc != "" {
 		r.line(ind+1, "description %s;", q(n.Desc))
